@@ -1,18 +1,18 @@
 SPECIFICATION Spec
 CONSTANTS
-  KindSet = {"att", "syncmsg"}
-  ConcSet = {1, 3}
-  ItemSet = {1, 5}
-  NodeCounts = {3}
+  KindSet = {"att", "agg"}
+  ConcSet = {3}
+  ItemSet = {1}
+  NodeCounts = {4}
   DefaultConc = 16
   MaxCalls = 1
   HistClients = {}
   HistOutcomes = {}
-  Design = "asks"
+  Design = "wrongcount"
   MaxLat = 2
-  CanonOuts = {}
-  ConfSets = {}
-  OtherSets = {}
+  CanonOuts = {"accept", "reject", "slowrej1", "slowok2", "hang"}
+  ConfSets = {{1, 2, 3}, {2, 3, 4}}
+  OtherSets = {{2, 3, 4}, {1, 2, 3, 4}}
   RefKind = "att"
 INVARIANTS TypeOK FlagSound TimeoutSignalHeard OfferedInFull SuccessIff ReturnsByTimeout Independence ClassifiedByNow
 CHECK_DEADLOCK FALSE
